@@ -1,7 +1,7 @@
 """C18 — relaxing the mapspace never makes the optimum worse.
 
 Alphabet: (spec, single relaxation, metric in {E, L, EDP}).  Family specs (mc/family.py) with the
-relaxations: memory size x2 / x2 -> inf, Buf.may_keep "Inputs" -> "All", Buf.keep "All" -> "~Main",
+relaxations: memory size /4 -> /2 -> 1 -> x2 -> inf, Buf.may_keep "Inputs" -> "All", Buf.keep "All" -> "~Main",
 max_fused_loops 0 -> 1 -> inf (two-Einsum specs), explore_imperfect_temporal_loops False -> True.
 Spatial specs = the repository's examples/arches/fanout_variations/*.yaml with
 examples/workloads/basic/matmuls.yaml (N_EINSUMS 1..2, M/KN 3..8) with the relaxations
@@ -62,11 +62,12 @@ def fam_variant(sid, variant):
     for atom in variant.split("+"):
         if atom == "default":
             continue
-        if atom.startswith(("x2:", "inf:")):
+        if atom.startswith(("x2:", "inf:", "div2:", "div4:")):
             how, mem = atom.split(":")
             cur = [n for n in arch.memories if n.name == mem][0].size
             assert str(cur) != "inf"
-            arch = _edit_mem(arch, mem, size=(2 * cur if how == "x2" else S.INF))
+            new = {"x2": 2 * cur, "inf": S.INF, "div2": max(8, cur // 2 // 8 * 8), "div4": max(8, cur // 4 // 8 * 8)}[how]
+            arch = _edit_mem(arch, mem, size=new)
         elif atom == "may-inputs":
             arch = _edit_mem(arch, "Buf", may_keep="Inputs")
         elif atom == "may-outputs":
@@ -88,17 +89,23 @@ def fam_relaxations(sid, quick):
     out = []
     for m in arch.memories:
         if str(m.size) != "inf":
-            out.append((f"size-x2:{m.name}", "larger-memory", "default", f"x2:{m.name}"))
-            out.append((f"size-x2-to-inf:{m.name}", "larger-memory", f"x2:{m.name}", f"inf:{m.name}"))
+            n = m.name
+            out.append((f"size-div4-to-div2:{n}", "larger-memory", f"div4:{n}", f"div2:{n}"))
+            out.append((f"size-div2-to-1:{n}", "larger-memory", f"div2:{n}", "default"))
+            if quick:
+                out.append((f"size-1-to-inf:{n}", "larger-memory", "default", f"inf:{n}"))
+            else:
+                out.append((f"size-1-to-x2:{n}", "larger-memory", "default", f"x2:{n}"))
+                out.append((f"size-x2-to-inf:{n}", "larger-memory", f"x2:{n}", f"inf:{n}"))
     buf = [m for m in arch.memories if m.name == "Buf"][0]
     out.append(("may_keep-Inputs-to-All:Buf", "larger-may_keep", "may-inputs", "default"))
+    out.append(("keep-All-to-default:Buf", "smaller-keep", "keep-all", "default"))
     if not quick:
         out.append(("may_keep-Outputs-to-All:Buf", "larger-may_keep", "may-outputs", "default"))
-    if str(buf.size) != "inf":
-        out.append(("keep-All-to-default:Buf", "smaller-keep", "keep-all", "default"))
-        out.append(("keep-All-to-default:Buf@x2", "smaller-keep", "x2:Buf+keep-all", "x2:Buf"))
-    else:
-        out.append(("keep-All-to-default:Buf", "smaller-keep", "keep-all", "default"))
+        if str(buf.size) != "inf":
+            out.append(("may_keep-Inputs-to-All:Buf@div2", "larger-may_keep", "div2:Buf+may-inputs", "div2:Buf"))
+            out.append(("keep-All-to-default:Buf@x2", "smaller-keep", "x2:Buf+keep-all", "x2:Buf"))
+            out.append(("imperfect-temporal-on@div2", "imperfect-factorisation", "div2:Buf", "div2:Buf+imperfect"))
     if len(wl.einsums) > 1:
         out.append(("max_fused_loops-0-to-1", "higher-max_fused_loops", "mfl0", "mfl1"))
         out.append(("max_fused_loops-1-to-inf", "higher-max_fused_loops", "mfl1", "default"))
@@ -157,14 +164,14 @@ def _spec_table(ctx):
     """-> {spec id: ("fam", sid) | ("spatial", sp)}"""
     q = ctx.quick
     tab = {}
-    fam = (["MM1-422/tight", "MV2-222/tight", "MM1-622/tight"] if q else
+    fam = (["MM1-422/tight", "MV2-222/tight", "MM1-323/tight"] if q else
            list(FAM.MEDIUM_SIDS) + ["MM1-323/tight", "MM1-323/mid", "MM2-2222/tight", "MV2-442/mid", "MM1-222/H3",
                                     "MV1-42/H3", "MM1-1222/tight", "MV1-62/tight"])
     for sid in fam:
         tab[sid] = ("fam", sid)
     if q:
         sps = [("at_mac_with_constraints", n, m, kn) for n in (1, 2) for (m, kn) in ((4, 4), (6, 4))]
-        sps += [(an, 1, m, kn) for an in ("at_mac", "at_glb_with_fanout_node") for (m, kn) in ((6, 4), (3, 3))]
+        sps += [("at_mac", 1, 6, 4), ("at_glb_with_fanout_node", 1, 3, 3)]
     else:
         shapes = ((4, 4), (6, 4), (4, 6), (6, 6), (3, 3), (8, 8), (5, 4))
         sps = [(an, n, m, kn) for an in ("at_mac_with_constraints", "at_mac", "at_glb", "at_mac_with_fanout_node",
